@@ -1,5 +1,6 @@
 import CircBuf.Lemmas.CloneFault
 import CircBuf.Lemmas.UserFault
+import CircBuf.Lemmas.FillFault
 /-!
 # C06 — a panic in user code (Clone, closure, iterator, eq) leaves a valid buffer
 
@@ -11,6 +12,10 @@ The fault plan is "the `k+1`-th call of that kind panics", for **every** `k`, ca
   ledger records one `dropped` event per destroyed clone and nothing else.  (This is the leak of the
   unrepaired code, F5, as a theorem about the repaired code; free space wrapping around the array
   end is the case `k ≥ first segment length`.)
+* **`T::clone` in `fill_spare` / `fill`** (`C06_clone_in_fill_spare`, `C06_clone_in_fill`): the buffer
+  stays valid and holds the old contents (for `fill`: nothing, they were destroyed once each)
+  followed by the `k` clones made before the panic; the value handed in, which the callee owns, is
+  destroyed exactly once; no clone is lost or destroyed.
 * **closure of `fill_with` / `fill_spare_with`** (`C06_closure`): the buffer holds the old contents
   followed by the `k` elements produced before the panic — every created element is in the buffer.
 * **iterator given to `extend` / `from_iter`** (`C06_iterator`): the buffer holds what pushing the
@@ -30,6 +35,27 @@ theorem C06_clone_in_extend_from_slice (s : Sys) (other : List Elem) (k : Nat) (
       abs s'.buf = abs s.buf ++ kept ∧
       s'.log = dropEvents s.kind destroyed ++ (cloneLog s.kind s.next (other.take k) ++ s.log) :=
   cloneIntoFree_fault s other k h hc hk hkm hd hfit
+
+theorem C06_clone_in_fill_spare (s : Sys) (value : Elem) (k : Nat) (h : Inv s.buf)
+    (hd : s.faults.drop = 0) (hc : s.faults.clone = k + 1) (hk : k < s.buf.cap - 1 - s.buf.size) :
+    ∃ s', fillSpare value s = (.error (.user "clone"), s') ∧ Inv s'.buf ∧
+      abs s'.buf = abs s.buf ++ cloneList s.kind s.next (List.replicate k value) ∧
+      s'.buf.cap = s.buf.cap ∧
+      s'.log = dropEvents s.kind [value] ++ cloneLog s.kind s.next (List.replicate k value) ++ s.log :=
+  fillSpare_clone_fault s value k h hd hc hk
+
+theorem C06_clone_in_fill (s : Sys) (value : Elem) (k : Nat) (h : Inv s.buf)
+    (hd : s.faults.drop = 0) (hc : s.faults.clone = k + 1) (hk : k < s.buf.cap - 1) :
+    ∃ s', fill value s = (.error (.user "clone"), s') ∧ Inv s'.buf ∧
+      abs s'.buf = cloneList s.kind s.next (List.replicate k value) ∧ s'.buf.cap = s.buf.cap ∧
+      s'.log = dropEvents s.kind [value] ++ cloneLog s.kind s.next (List.replicate k value)
+        ++ dropEvents s.kind (abs s.buf) ++ s.log :=
+  fill_clone_fault s value k h hd hc hk
+
+/-- non-vacuity: an empty capacity-4 buffer of tracked elements, the 2nd clone armed to panic -/
+example : let s : Sys := { buf := CB.new 4, faults := { clone := 2 } }
+    Inv s.buf ∧ s.faults.drop = 0 ∧ s.faults.clone = 1 + 1 ∧ 1 < s.buf.cap - 1 - s.buf.size := by
+  refine ⟨(inv_new' 4 (by unfold W; omega)).1, rfl, rfl, by decide⟩
 
 theorem C06_closure (fuel : Nat) (s : Sys) (k : Nat) (h : Inv s.buf)
     (hd : s.faults.drop = 0) (hc : s.faults.call = k + 1) (hk : s.kind = .tracked)
